@@ -161,6 +161,10 @@ pub fn generate(rng: &mut Rng, fault_free: bool) -> K18 {
     // "many" mode: more aircraft than fit on one page of the Airplanes tab (scrolling table); the
     // map is then too crowded for label geometry and only data is judged
     let many = !fault_free && rng.chance(0.03);
+    // "excursion" runs: aircraft leave the maximum range (or jump) while still being heard, so
+    // their fixes are rejected and the position columns must go blank again; garbage pairings can
+    // land anywhere, so label geometry is not judged in these runs (data is)
+    let excursion = !fault_free && !many && rng.chance(0.15);
     let nac = if many { 0 } else { 1 + rng.usize_below(6) };
     let deep = simcore::deep() && rng.chance(0.33);
     let dur_a: u64 = 2_000_000 + rng.below(if deep { 20_000_000 } else { 6_000_000 });
@@ -191,7 +195,11 @@ pub fn generate(rng: &mut Rng, fault_free: bool) -> K18 {
                 0 => wire::me_identification(4, 0, &cs),
                 1 | 2 => {
                     odd = !odd;
-                    let (yz, xz) = wire::cpr_encode(rx.0 + dlat, rx.1 + dlon, odd);
+                    // in excursion runs the aircraft is beyond the 500 km range limit in the
+                    // middle third of its life
+                    let away = excursion && ctr >= 8 && (ctr / 8) % 3 == 1;
+                    let far = if away { if rx.0 > 0.0 { -6.5 } else { 6.5 } } else { 0.0 };
+                    let (yz, xz) = wire::cpr_encode(rx.0 + dlat + far, rx.1 + dlon, odd);
                     wire::me_airborne_position(11, 0, 0, wire::ac12_q(5_000 + 2_000 * slot as i32), false, odd, yz, xz)
                 }
                 _ => wire::me_velocity(1, 0, wire::sub_ground_speed(rng.below(2) as u8, 50 + rng.below(400) as u16, rng.below(2) as u8, 50 + rng.below(400) as u16), 0, 0, 1 + rng.below(60) as u16, 0, 3),
@@ -381,7 +389,7 @@ pub fn generate(rng: &mut Rng, fault_free: bool) -> K18 {
     push(&mut events_b, &mut t, key("F4"), 250_000);
     push(&mut events_b, &mut t, key("F1"), 250_000);
     push(&mut events_b, &mut t, key("c:q"), 0);
-    K18 { cols, rows, filter_time, locations, flags, lines, events_a, events_b, bulk, many, rx }
+    K18 { cols, rows, filter_time, locations, flags, lines, events_a, events_b, bulk, many: many || excursion, rx }
 }
 
 fn end_a(sc: &K18) -> u64 {
@@ -709,6 +717,9 @@ pub fn execute(sc: &K18) -> Outcome {
         seen.len() + usize::from(sc.bulk > 0)
     } {
         out.probe("aircraft_re_added_after_expiry");
+    }
+    if sc.many && sc.lines.len() < 150 && sc.bulk == 0 {
+        out.fault("out_of_range_excursion");
     }
     if expired_any {
         out.probe("aircraft_expired_from_table");
